@@ -102,6 +102,10 @@ IsDupTok(t) == "dup" \in DOMAIN cfg /\ t \in Range(cfg.dup)
 
 \* C15 well-formedness
 NoDup(s) == \A i, j \in DOMAIN s : i # j => s[i] # s[j]
+\* the token ids the system contract issued in this world (when the trace says so): every entry belongs to one of them
+IssuedToks == IF "issued" \in DOMAIN cfg THEN Range(cfg.issued) \cup (IF "dup" \in DOMAIN cfg THEN Range(cfg.dup) ELSE {}) ELSE {}
+KeyOfIssued(k, e) ==
+  ~("issued" \in DOMAIN cfg) \/ (IF e.hm /\ e.meta.nonce > 0 THEN \E t \in IssuedToks : k = t \o NBHex(e.meta.nonce) ELSE k \in IssuedToks)
 EntryWF(k, e) ==
   /\ e.val > 0 \/ (e.val = 0 /\ e.type = 0 /\ ~e.hm /\ FlagSet(e.props))
   /\ e.type = 0 => ~e.hm
@@ -111,7 +115,7 @@ WellFormed(w, h) ==
   \A a \in Accts(w) :
     LET ac == w.acct[a] IN
     /\ ac.bad = <<>>
-    /\ \A k \in DOMAIN ac.esdt : EntryWF(k, ac.esdt[k])
+    /\ \A k \in DOMAIN ac.esdt : EntryWF(k, ac.esdt[k]) /\ KeyOfIssued(k, ac.esdt[k])
     /\ \A t \in DOMAIN ac.roles : (IsDupTok(t) \/ NoDup(ac.roles[t])) /\ ac.roles[t] # <<>>
     /\ \A t \in DOMAIN ac.roles : (RoleCreate \in Range(ac.roles[t]) /\ ~IsDupTok(t)) => CtrOf(ac, t) >= MaxN(h, t)
     /\ \A t \in DOMAIN ac.ctr : ac.ctr[t] > 0
